@@ -777,11 +777,11 @@ class SgzReader(object):
         trace : numpy.ndarray of float32, shape (n_samples) or (max_sample_id - min_sample_id)
             A single trace, decompressed
         """
-        min_sample_no = self.zslices[0] if min_sample_no is None else min_sample_no
-        max_sample_no = self.zslices[-1] + self.zslices[1] - self.zslices[0] if max_sample_no is None else max_sample_no
-        trace = self.get_trace(index,
-                               self.get_zslice_index(min_sample_no),
-                               self.get_zslice_index(max_sample_no, include_stop=True))
+        # Omitted bounds are the ends of the trace: no coordinate arithmetic (and rounding) needed for them
+        min_sample_id = 0 if min_sample_no is None else self.get_zslice_index(min_sample_no)
+        max_sample_id = self.n_samples if max_sample_no is None \
+            else self.get_zslice_index(max_sample_no, include_stop=True)
+        trace = self.get_trace(index, min_sample_id, max_sample_id)
         return trace
 
     def get_trace(self, index, min_sample_id=None, max_sample_id=None, override_unstructured_mapping=False):
